@@ -178,6 +178,12 @@ func GenDatasetSized(t *rapid.T, large bool) Dataset {
 		keep[n] = true
 	}
 	d.Files["subset.nw"] = write([]*ref.Node{ref.Restrict(base, func(n string) bool { return keep[n] })})
+	// a small subset: most tips of the input are specific to it (whole neighbourhoods are pruned)
+	keep4 := map[string]bool{}
+	for _, n := range tips[:4] {
+		keep4[n] = true
+	}
+	d.Files["subset4.nw"] = write([]*ref.Node{ref.Restrict(base, func(n string) bool { return keep4[n] })})
 	// a tree whose nodes are all named, with sequences for tips and ancestors (compute mutations)
 	named := rooted.Clone()
 	named.Name = "ROOT"
@@ -356,6 +362,8 @@ func Templates() []Template {
 		T("prune-file", "tree.nw", "prune", "-f", "tips.txt"),
 		T("prune-file-revert", "tree.nw", "prune", "-f", "tips.txt", "-r"),
 		T("prune-comp", "tree.nw", "prune", "-c", "subset.nw"),
+		T("prune-comp-small", "trees.nw", "prune", "-c", "subset4.nw"),
+		T("prune-comp-small-revert", "trees.nw", "prune", "-c", "subset4.nw", "-r"),
 		T("prune-random", "tree.nw", "prune", "--random", "4").seeded(),
 		T("reformat-newick-from-nexus", "trees.nex", "reformat", "newick", "--input-format", "nexus"),
 		T("reformat-newick-from-phyloxml", "trees.xml", "reformat", "newick", "--input-format", "phyloxml"),
